@@ -172,6 +172,31 @@ fn check_strcmp(s: &mut Sink, a: &[u8], b: &[u8]) {
     }
 }
 
+const SEP: &[u8] = b"\x00\x01<verif-sep>\x02\n";
+
+/// Two strings with a common prefix of `l` non-zero bytes followed by the tails.
+fn check_strcmp_long(s: &mut Sink, l: usize, ta: &[u8], tb: &[u8]) {
+    let prefix: Vec<u8> = (0..l).map(|i| (i % 251) as u8 + 1).collect();
+    let mut az = prefix.clone();
+    az.extend_from_slice(ta);
+    az.push(0);
+    let mut bz = prefix;
+    bz.extend_from_slice(tb);
+    bz.push(0);
+    let ba = Buf::new(az.len(), 0);
+    let bb = Buf::new(bz.len(), 0);
+    ba.fill(&az);
+    bb.fill(&bz);
+    let rp = json!({"kind":"helper","name":"strcmp-long","args":[l, hex(ta), hex(tb)]});
+    let got = catch(|| helpers::strcmp(ba.addr(), bb.addr(), 0, 0, 0));
+    let want = ref_strcmp(&az, &bz);
+    match got {
+        Ok(v) if v == want => {}
+        Ok(v) => viol(s, "helpers/strcmp/value-mismatch", format!("strcmp of two strings with a common prefix of {l} bytes followed by {:02x?} / {:02x?} = {v}, expected {want}", ta, tb), rp),
+        Err(m) => viol(s, &format!("helpers/strcmp/{}", panic_class(&m)), m, rp),
+    }
+}
+
 // ---------------------------------------------------------------- bpf_trace_printf (stdout captured in a child)
 fn printf_values() -> Vec<u64> {
     let mut v = vec![0u64, 1, 2, 9, 10, 15];
@@ -212,6 +237,10 @@ fn check_printf_batch(s: &mut Sink, cases: &[[u64; 3]]) {
                 let r = std::panic::catch_unwind(|| helpers::bpf_trace_printf(0x11, 0x22, c[0], c[1], c[2]));
                 let v = r.unwrap_or(u64::MAX);
                 rets.extend_from_slice(&v.to_le_bytes());
+                // a separator written by the harness itself, so that what each call printed is
+                // known whatever it contains (or lacks, e.g. the final newline)
+                let _ = std::io::stdout().flush();
+                libc::write(1, SEP.as_ptr() as *const libc::c_void, SEP.len());
             }
             let _ = std::io::stdout().flush();
             libc::write(pb[1], rets.as_ptr() as *const libc::c_void, rets.len());
@@ -238,7 +267,12 @@ fn check_printf_batch(s: &mut Sink, cases: &[[u64; 3]]) {
         libc::close(pb[0]);
         let mut st = 0;
         libc::waitpid(pid, &mut st, 0);
-        let lines: Vec<&[u8]> = so.split_inclusive(|b| *b == b'\n').collect();
+        let mut lines: Vec<&[u8]> = vec![];
+        let mut rest: &[u8] = &so;
+        while let Some(pos) = rest.windows(SEP.len()).position(|w| w == SEP) {
+            lines.push(&rest[..pos]);
+            rest = &rest[pos + SEP.len()..];
+        }
         if lines.len() != cases.len() || rets.len() != cases.len() * 8 {
             s.violation("harness/bpf_trace_printf/capture-failed", format!("{} lines, {} return values for {} calls", lines.len(), rets.len() / 8, cases.len()), json!({"kind":"none"}));
             return;
@@ -281,7 +315,7 @@ pub fn run(s: &mut Sink) {
     s.meta.insert("alphabet".into(), json!({
         "gather_bytes": "each argument over V64 (31 values) with the others fixed, full product over a 6-value subset",
         "memfrob": "every length 0..=64 x every start alignment 0..7 x 3 fill patterns, guard pages and canaries around the buffer",
-        "strcmp": "all pairs of strings of length <= 3 over {0x01,0x7f,0x80,0xff}, NUL terminated; null pointers",
+        "strcmp": "all pairs of strings of length <= 3 over {0x01,0x7f,0x80,0xff}, NUL terminated; common prefixes of every length 0..=1100 and around 4096 and 65536 followed by every pair of tails of length <= 1; null pointers",
         "sqrti": format!("k^2, k^2-1, k^2+1 for every k < {kmax}; 2^n, 2^n-1, 2^n+1 for n < 64; 2^52 neighbourhood; u64::MAX neighbourhood"),
         "bpf_trace_printf": "each of the three printed arguments over {16^k, 16^k-1, 16^k+1, 2^n-1, 2^n|1, small values, u64::MAX}, others fixed; full product over an 8-value subset; stdout captured in a child process",
         "rand": "all ordered pairs from {0,1,2,2^32,2^63,u64::MAX-1,u64::MAX} with min < max, 64 calls each",
@@ -344,6 +378,18 @@ pub fn run(s: &mut Sink) {
             for b in &strs {
                 check_strcmp(s, a, b);
                 n += 1;
+            }
+        }
+        // every common-prefix length up to 1100 bytes, and around 4 KiB and 64 KiB
+        let tails = all_strings(1);
+        let mut lens: Vec<usize> = (0..=1100).collect();
+        lens.extend([4095, 4096, 4097, 65535, 65536, 65537, 70000]);
+        for l in lens {
+            for ta in &tails {
+                for tb in &tails {
+                    check_strcmp_long(s, l, ta, tb);
+                    n += 1;
+                }
             }
         }
         // null pointers
@@ -474,6 +520,7 @@ pub fn replay(v: &Value) -> Vec<String> {
         "gather_bytes" => check_gather(&mut s, [px(&args[0]), px(&args[1]), px(&args[2]), px(&args[3]), px(&args[4])]),
         "sqrti" => check_sqrti(&mut s, px(&args[0])),
         "memfrob" => check_memfrob(&mut s, args[0].as_u64().unwrap() as usize, args[1].as_u64().unwrap() as usize, args[2].as_u64().unwrap() as u8),
+        "strcmp-long" => check_strcmp_long(&mut s, args[0].as_u64().unwrap() as usize, &unhex(args[1].as_str().unwrap()), &unhex(args[2].as_str().unwrap())),
         "strcmp" => check_strcmp(&mut s, &unhex(args[0].as_str().unwrap()), &unhex(args[1].as_str().unwrap())),
         "bpf_trace_printf" => check_printf_batch(&mut s, &[[px(&args[0]), px(&args[1]), px(&args[2])]]),
         "rand" => check_rand(&mut s, px(&args[0]), px(&args[1])),
